@@ -25,7 +25,12 @@ ASSUMPTIONS = ["identifiers are tuples of non-negative integers; trees have one 
                "or None)",
                "the independent-active oracle is evaluated on states whose lifting state is consistent "
                "(a composite object is lifted iff at least one of its point masses is)"]
-TRUSTED = ["CPython object identity (`id`, `is`) as the meaning of 'the same object'"]
+TRUSTED = ["CPython object identity (`id`, `is`) as the meaning of 'the same object'",
+           "the iteration order of the Python sets `_lifted_identifiers[n]` is not modelled: with two node levels the "
+           "active branches are compared after sorting by identifier on both sides (with one level the dictionary order "
+           "is modelled and compared exactly)",
+           "real-run part: bound methods of mediator._state_handler are wrapped (no source hooks); the global state is "
+           "read from the state handler's internals at every extract/insert call"]
 
 EXC = (IndexError, KeyError, AssertionError, TypeError, AttributeError)
 SPECIAL = [0.0, -0.0, 1.0, -1.0, 0.5, 1e300, -1e-300, 5e-324, 2.0 ** 52, float("inf")]
